@@ -323,6 +323,11 @@ def run(ctx: Ctx) -> None:
             fails.append(fl)
             done_before = any(e["e"] == "ret" for e in s[: next((i for i, e in enumerate(s) if e["e"] == "fail"), 0)])
             ctx.case({"s": s, "st": st, "en": en, "fl": fl}, nontrivial=done_before)
+        # a user exception that subclasses StopIteration (sequential and through a thread pool; asyncio cannot carry it)
+        flS = {"f": ff, "n": fn, "cls": "StopSub", "args": ["out of data"], "prenote": False}
+        traces.append(run_failing(scen, [], c03.STORAGES[(k + 1) % 2], "seq", flS))
+        fails.append(flS)
+        ctx.case({"seq-stopiteration": scenario, "fl": flS})
         # sequential run of the same failure
         cls, args = EXC_KINDS[k % len(EXC_KINDS)]
         fl = {"f": ff, "n": fn, "cls": cls, "args": args, "prenote": k % 2 == 0}
@@ -357,6 +362,12 @@ def run(ctx: Ctx) -> None:
         ptraces.append(run_pool_fail(tg, c03.STORAGES[k % 3], "thread", fl, ctx.seed * 100 + 50 + k, per_output=True))
         pfails.append(fl)
         ctx.case({"pool": "per-output", "fl": fl, "k": k})
+    for k, sn in enumerate(names[:2]):          # StopIteration subclass through a thread pool
+        sc = scens[sn]
+        fl = {"f": sc["desc"]["funcs"][0]["name"], "when": "*", "cls": "StopSub", "args": ["out of data"]}
+        ptraces.append(run_pool_fail(sc, c03.STORAGES[k % 3], "thread", fl, ctx.seed * 100 + 80 + k))
+        pfails.append(fl)
+        ctx.case({"pool": "thread", "fl": fl, "d": sc["desc"]})
     # two failures on one pipeline object
     for k, (st, en) in enumerate([("dict", "seq"), ("file_array", "thread"), ("file_array", "seq"), ("shared_memory_dict", "thread")]
                                  if quick else [(st, en) for st in c03.STORAGES for en in ("seq", "thread")]):
